@@ -78,3 +78,24 @@ Definition wrote_through (m : lmode) (s : slink) (d : dentry) : bool :=
 
 Fixpoint resync (m : lmode) (hist : list slink) (d : dentry) : dentry :=
   match hist with [] => d | s :: h => resync m h (sync_link m s d) end.
+
+(* ---------- what the run reports for the entry (sync/mod.rs: the Create and Update arms, following the repair
+   `fix: a symlink entry that is not copied is reported as skipped, not as created`) ---------- *)
+Inductive levent : Type := EvSkip | EvCreate | EvUpdate | EvError.
+
+(* handle_symlink returned Some(transfer result): only follow mode with a target that is a regular file *)
+Definition produced (m : lmode) (s : slink) : bool :=
+  match m with LFollow => match l_cwd s with RFile _ => true | _ => false end | _ => false end.
+
+Definition link_event (m : lmode) (s : slink) (d : dentry) : levent :=
+  match plan_link m s d with
+  | LkSkip => EvSkip
+  | LkCreate => match handle_symlink m s d with
+                | inr _ => EvError
+                | inl _ => if produced m s then EvCreate else match m with LPreserve => EvCreate | _ => EvSkip end
+                end
+  | LkUpdate => match update_link m s d with
+                | inr _ => EvError
+                | inl _ => if produced m s then EvUpdate else match m with LSkip => EvSkip | _ => EvUpdate end
+                end
+  end.
